@@ -298,11 +298,12 @@ Definition handle_connect (c : cfg) (eio : str) (pns : option str) (data : pv) :
                          | _ => None end) ;;
       let '(success, fail_reason) := res in
       if match success with Some v => pv_eqb v (PBool false) | None => false end then
-        (if always_connect c then
-           r <~ with_mg (fun m => pre_disconnect m sid ns) ;; _ <~ lift r ;;
-           send_packet c (Some eio) DISCONNECT fail_reason ns None
-         else send_packet c (Some eio) CONNECT_ERROR fail_reason ns None) ;;;
-        set_mg (fun m => mgr_disconnect m sid ns)
+        finallyM
+          (if always_connect c then
+             r <~ with_mg (fun m => pre_disconnect m sid ns) ;; _ <~ lift r ;;
+             send_packet c (Some eio) DISCONNECT fail_reason ns None
+           else send_packet c (Some eio) CONNECT_ERROR fail_reason ns None)
+          (set_mg (fun m => mgr_disconnect m sid ns))
       else if always_connect c then ret tt
       else send_packet c (Some eio) CONNECT (sid_dict sid) ns None
   end.
